@@ -261,11 +261,11 @@ theorem Rel.dropTid {cfg : Cfg} {st : St} {t : Track} (h : Rel cfg st t) (tid : 
     fun ls hp l hl x hpc hc => h.bo_nr ls hp l hl x hpc (List.mem_filter.mp hc).1, h.bo_stop, h.att, h.idle0⟩
   · intro rid b hp
     have a := h.sending rid b hp
-    exact ⟨a.cur, a.res, ⟨a.br.tps, a.br.nodup, a.br.live, a.br.lastP, a.br.prod, a.br.chain1⟩, a.chain, a.sub, a.nodup⟩
+    exact ⟨a.cur, a.res, ⟨a.br.tps, a.br.nodup, a.br.live, a.br.lastP, a.br.prod, a.br.chain1⟩, a.chain, a.sub, a.nodup, a.ne, a.al⟩
   · intro tid' b tps hp
     have a := h.retrying tid' b tps hp
     refine ⟨List.mem_filter.mpr ⟨a.tid, ?_⟩, a.res, ⟨a.br.tps, a.br.nodup, a.br.live, a.br.lastP, a.br.prod, a.br.chain1⟩,
-      a.chain, a.att, a.sub, a.nodup, a.nostop⟩
+      a.chain, a.att, a.sub, a.nodup, a.nostop, a.ne, a.al⟩
     simp only [decide_eq_true_eq]
     intro hc; subst hc; exact hne b tps hp
 
@@ -388,7 +388,7 @@ theorem rel_retry (cfg : Cfg) (st : St) (t : Track) (tid : Tid) (b : Batch) (tps
     refine ⟨h.stopped, ?_, ?_, ?_, ?_, fun x hx => h.rt_lt x (List.mem_filter.mp hx).1, ?_, ?_, ?_, by show 0 ≤ st.attempts + 1; have := h.att; omega, ?_⟩
     · intro rid' b' hp
       injection hp with e1 e2; subst e1; subst e2
-      refine ⟨rfl, rfl, ⟨a.br.tps, a.br.nodup, a.br.live, ?_, ?_, Nat.succ_le_succ (Nat.zero_le _)⟩, ?_, a.sub, a.nodup⟩
+      refine ⟨rfl, rfl, ⟨a.br.tps, a.br.nodup, a.br.live, ?_, ?_, Nat.succ_le_succ (Nat.zero_le _)⟩, ?_, a.sub, a.nodup, a.ne, a.al⟩
       · intro g hg
         by_cases hgt : g.tp ∈ tps
         · apply List.mem_append_left
@@ -576,10 +576,51 @@ end Afkak.Producer
 namespace Afkak.Producer
 open Afkak.Consts Afkak.Monitor.ProducerTrace Afkak.Monitor.C01 Afkak.Monitor.C09
 
+/-- if the result accounts for every payload of the attempt, and nothing unacknowledged was left out of the
+    attempt, then nothing unacknowledged is left out of the retry -/
+theorem retry_covers (b : Batch) (r : ProdRes) (acct : Bool) (hlive : ∀ tp ∈ b.live, tp ∈ b.groups.map (·.tp))
+    (hal : acct = true → ∀ tp ∈ b.live, tp ∈ b.current)
+    (hne : failedTps (b.popAcked (respsOf r)).live r ≠ []) :
+    (acct && accounts (b.payloadsFor b.current) r) = true →
+      ∀ tp ∈ (b.popAcked (respsOf r)).live, tp ∈ failedTps (b.popAcked (respsOf r)).live r := by
+  intro h tp htp
+  simp only [Bool.and_eq_true] at h
+  obtain ⟨ha, hacc⟩ := h
+  have htp' := htp
+  simp only [Batch.popAcked, List.mem_filter, Bool.not_eq_true', List.any_eq_false, decide_eq_true_eq] at htp'
+  obtain ⟨hl, hng⟩ := htp'
+  obtain ⟨g, hg, hgt⟩ := List.mem_map.mp (hlive tp hl)
+  have hgp : g ∈ b.payloadsFor b.current := (mem_payloadsFor b b.current g).mpr ⟨hg, by rw [hgt]; exact hal ha tp hl⟩
+  have resp_case : ∀ rs : List Resp, respsOf r = rs → ∀ resp ∈ rs, resp.tp = g.tp →
+      tp ∈ (rs.filter (·.error ≠ 0)).map (·.tp) := by
+    intro rs hrs resp hr hrt
+    by_cases he : resp.error = 0
+    · exfalso
+      rw [hrs] at hng
+      exact hng resp ⟨hr, he⟩ (by rw [hrt, hgt])
+    · exact List.mem_map.mpr ⟨resp, List.mem_filter.mpr ⟨hr, by simpa using he⟩, by rw [hrt, hgt]⟩
+  cases r with
+  | none => simp [failedTps] at hne
+  | err k => simpa [failedTps] using htp
+  | responses rs =>
+    cases rs with
+    | nil => simp [failedTps] at hne
+    | cons a l =>
+      simp only [accounts, List.all_eq_true, List.any_eq_true, decide_eq_true_eq] at hacc
+      obtain ⟨resp, hr, hrt⟩ := hacc g hgp
+      simp only [failedTps]
+      exact resp_case (a :: l) rfl resp hr hrt
+  | failed rs fs =>
+    simp only [accounts, List.all_eq_true, Bool.or_eq_true, List.any_eq_true, decide_eq_true_eq] at hacc
+    simp only [failedTps, List.mem_append]
+    rcases hacc g hgp with ⟨resp, hr, hrt⟩ | ⟨f, hf, hft⟩
+    · exact Or.inr (resp_case rs rfl resp hr hrt)
+    · exact Or.inl (List.mem_map.mpr ⟨f, hf, by rw [hft, hgt]⟩)
+
 /-- the summary right after an effective completion event for the request in flight -/
 def completedTrack (t : Track) (ps : List Payload) (r : ProdRes) : Track :=
   { t with curRes := some r, acct := t.acct && accounts ps r,
-           acct0 := t.acct0 && (accounts ps r || isAcks0Shape r),
+           acct0 := t.acct0 && isAcks0Shape r,
            acked := ((respsOf r).filter (·.error = 0)).map (·.tp) ++ t.acked }
 
 /-- the client's result for the request in flight is handled (`finish ∘ handleSendResponse`) -/
@@ -617,7 +658,8 @@ theorem rel_handled (cfg : Cfg) (s : St) (t : Track) (e : Ev) (rid : Rid) (b : B
     · intro tid' b' tps' hp
       rw [d1] at hp; injection hp with e1 e2 e3; subst e1; subst e2; subst e3
       refine ⟨List.mem_cons_self, ⟨r, rfl, by rw [← hlive]⟩, ⟨a.br.tps, a.br.nodup, hlive, a.br.lastP, a.br.prod, a.br.chain1⟩,
-        by rw [d3]; exact a.chain, by rw [d3]; exact d4, g1, g2, by rw [hstat.2.1]; exact d5⟩
+        by rw [d3]; exact a.chain, by rw [d3]; exact d4, g1, g2, by rw [hstat.2.1]; exact d5, d2, ?_⟩
+      exact retry_covers b r t.acct (fun tp htp => a.br.live_sub tp htp) a.al d2
     · intro hq; rcases hq with hq | ⟨ls, hq⟩ <;> (rw [d1] at hq; cases hq)
     · intro x hx
       rw [d7]
@@ -788,7 +830,7 @@ theorem Rel.setStop {cfg : Cfg} {st : St} {t : Track} (h : Rel cfg st t)
   refine ⟨rfl, ?_, ?_, h.quiet, h.lp_nodup, h.rt_lt, h.bo_lt, h.bo_nr, ?_, h.att, h.idle0⟩
   · intro rid b hp
     have a := h.sending rid b hp
-    exact ⟨a.cur, a.res, ⟨a.br.tps, a.br.nodup, a.br.live, a.br.lastP, a.br.prod, a.br.chain1⟩, a.chain, a.sub, a.nodup⟩
+    exact ⟨a.cur, a.res, ⟨a.br.tps, a.br.nodup, a.br.live, a.br.lastP, a.br.prod, a.br.chain1⟩, a.chain, a.sub, a.nodup, a.ne, a.al⟩
   · intro tid b tps hp
     rcases hph with hq | ⟨rid, b', hq⟩ <;> (rw [show ({ st with stopping := true, tmeta := tm } : St).phase = st.phase from rfl, hq] at hp; cases hp)
   · intro _ ls hp
